@@ -1,4 +1,4 @@
-CONSTANTS N = 14  K = 13  BigK = {36, 601, 100003, 7000001}  MaxLevel = 1
+CONSTANTS N = 14  K = 13  BigK = {36, 601, 100003, 7000001}  MaxLevel = 2
 ACTION_CONSTRAINT Emit
 INVARIANT EmitState
 INIT Init
